@@ -125,7 +125,7 @@ func (st TrackerStatus) String() string {
 
 	// other filters
 	for k, v := range trackerStatusString {
-		if st&k > 0 {
+		if k != TrackerStatusUndefined && st&k == k {
 			values = append(values, v)
 		}
 	}
